@@ -11,15 +11,20 @@ import mir
 def slice_items(engine, st, v):
     """-> (ref to the Arr, offset, items) for a &Vec / &[T] / Slice view."""
     off = 0
+    hi = None
     while True:
         x = sym._deref_arg(engine, st, v) if isinstance(v, sym.Ref) else v
         if isinstance(x, sym.Adt) and x.ty == "Slice":
-            if len(x.fields) > 1:
-                off += x.fields[1]
+            lo_ = x.fields[1] if len(x.fields) > 1 else 0
+            if hi is not None:
+                hi = lo_ + hi
+            elif len(x.fields) > 2:
+                hi = x.fields[2]
+            off = lo_ + off
             v = x.fields[0]
             continue
         if isinstance(x, sym.Arr):
-            return v, off, x.items
+            return v, off, (x.items if hi is None else x.items[:hi])
         raise mir.Unsupported("slice view of %r" % (x,))
 
 
@@ -61,9 +66,23 @@ def _citer(engine, st, v):
     return it.fields[0].items
 
 
+def _into_items(engine, st, v):
+    x = sym._deref_arg(engine, st, v) if isinstance(v, sym.Ref) else v
+    if isinstance(x, sym.Adt) and x.ty == "CIter":
+        return x.fields[0].items
+    if isinstance(x, sym.Arr) and isinstance(v, sym.Ref):
+        return [sym.Ref(v.root, v.path + (("index_c", i),)) for i in range(len(x.items))]
+    if isinstance(x, sym.Adt) and x.ty == "Slice":
+        r, off, items = slice_items(engine, st, x)
+        return [sym.Ref(r.root, r.path + (("index_c", i),)) for i in range(off, len(items))]
+    if isinstance(x, sym.Arr):
+        return list(x.items)
+    raise mir.Unsupported("iterator adapter on %r" % (x,))
+
+
 def m_zip(engine, st, fr, callee, args, ops):
     a = _citer(engine, st, args[0])
-    b = _citer(engine, st, args[1])
+    b = _into_items(engine, st, args[1])
     n = min(len(a), len(b))
     return sym.Adt("CIter", None, [sym.Arr([sym.Adt("tuple", None, [a[i], b[i]]) for i in range(n)])])
 
